@@ -1,5 +1,6 @@
 import TexcraftModel.Util.Proto
 import TexcraftModel.Model.C14
+import TexcraftModel.Model.C14Recon
 import TexcraftModel.Model.C13
 
 /-! Driver for C14 (hyphenation pass over a horizontal list). Requests (all integers):
@@ -13,6 +14,14 @@ import TexcraftModel.Model.C13
   positions of the word by C13's specification `C13.specIndices` (dot separated, `_` = none,
   `N` = the word has a non-letter). Used to tie the raw positions to property C13 when the
   pattern set is small enough to be given to the driver.
+
+* `rm <lhm> <rhm> <P> <inp list> <out list> <n> {<k> raw…}` — the reconstitution model: `P` = the
+  font's lig/kern program in C05's encoding (`rb lb nE (c e)* nK k* nI (next right kind x y)*`, kerns
+  already scaled). Reply `<v> | <runs> | <model list>`: `v` = `1` the list `hyphenateM` computes
+  with the engine `engineOfProgram P` equals the REAL output node for node, `0` it differs, `P`
+  the model panics/hangs; `runs` = for every word that is rebuilt `dlb rbo n item…;` — the main
+  run of the model engine with `is_separation_point()` after every item (item = `0 c s` |
+  `1 k s` | `2 c lb rb n o… s`), which the harness compares with the real `RunIter`.
 
 List encoding: `<n> item…`; item = `0 c font` | `1 c font lb rb <k> orig…` | `2 kind w` |
 `3 kind <k> payload…` | `4 rc <npre> delem… <npost> delem…`; delem = `0 c font` |
@@ -144,6 +153,112 @@ def positionsOf (lhm rhm : Int) (ws : List Word) (raws : List (List Nat)) (spec 
   (ws.zip raws).map (fun (w, r) =>
     if spec then specPositions lhm rhm w.letters.length r else wordPositions lhm rhm w.letters.length r)
 
+/-! ### The reconstitution model -/
+
+def optNat (i : Int) : Option Nat := if i < 0 then none else some i.toNat
+
+def postOf : Int → Option C05.PostLig
+  | 0 => some .bothNowhere | 1 => some .bothInserted | 2 => some .bothRight
+  | 3 => some .rightInserted | 4 => some .rightRight | 5 => some .leftNowhere
+  | 6 => some .leftInserted | 7 => some .neither | _ => none
+
+def decInstrs : Nat → Cur → Option (List C05.Instr × Cur)
+  | 0, c => some ([], c)
+  | n + 1, nx :: r :: k :: x :: y :: t => do
+    let op ← match k with
+      | 0 => some (C05.RawOp.kern x)
+      | 1 => some (C05.RawOp.kernAt x.toNat)
+      | 2 => (postOf y).map (C05.RawOp.lig x.toNat)
+      | 3 => some (C05.RawOp.redirect x.toNat)
+      | _ => none
+    let (is, t) ← decInstrs n t
+    pure ({ next := optNat nx, right := r.toNat, op } :: is, t)
+  | _, _ => none
+
+def pairsOf : List Int → List (Nat × Nat)
+  | a :: b :: t => (a.toNat, b.toNat) :: pairsOf t
+  | _ => []
+
+/-- Same encoding as `Driver/C05.lean`. -/
+def decProg (c : Cur) : Option (C05.Program × Cur) :=
+  match c with
+  | rb :: lb :: nE :: t => do
+    let (es, t) ← takeN (2 * nE.toNat) t
+    let (ks, t) ← takeList t
+    match t with
+    | nI :: t =>
+      let (is, t) ← decInstrs nI.toNat t
+      pure ({ instrs := is, lbEntry := optNat lb, rb := optNat rb, entries := pairsOf es, kerns := ks }, t)
+    | [] => none
+  | _ => none
+
+/-- `C05.table p` with `C05.bound p` computed once (`tableB (bound p) p = table p` by `rfl`). -/
+def tableB (b : Nat) (p : C05.Program) (l : Option Nat) (r : Nat) : Option C05.Repl :=
+  match C05.pairResult b p l r with
+  | some (some rep) => some rep
+  | _ => none
+
+def encNode : Node × Bool → List Int
+  | (.ch c, s) => [0, (c : Int), b2i s]
+  | (.kern k, s) => [1, k, b2i s]
+  | (.lig c o lb rb, s) => [2, (c : Int), b2i lb, b2i rb, (o.length : Int)] ++ o.map Int.ofNat ++ [b2i s]
+where b2i (b : Bool) : Int := if b then 1 else 0
+
+def showD : DElem → String
+  | .char c _ => s!"c{c}"
+  | .lig c _ o lb rb => s!"l{c}<{if lb then "|" else ""}{".".intercalate (o.map toString)}{if rb then "|" else ""}>"
+  | .kern w => s!"k{w}"
+  | .other t => s!"o{t}"
+
+def showItem : Item → String
+  | .char c f => s!"c{c}@{f}"
+  | .lig c f o lb rb => s!"l{c}@{f}<{if lb then "|" else ""}{".".intercalate (o.map toString)}{if rb then "|" else ""}>"
+  | .kern k w => s!"k{k}:{w}"
+  | .other k _ => kindName (.other k [])
+  | .disc pre post rc => s!"disc[{",".intercalate (pre.map showD)}|{",".intercalate (post.map showD)}|{rc}]"
+
+/-- The words that are rebuilt, with the parameters of their main run. -/
+def rebuiltWords (inp : List Item) (lhm rhm : Int) (liang : List Nat → List Nat) :
+    List (List Nat × Bool × Option Nat) :=
+  (findWords inp).filterMap (fun w =>
+    let pos := wordPositions lhm rhm w.letters.length (liang w.letters)
+    if pos.isEmpty then none else
+    let rest := inp.drop w.start
+    let skipped := ((inp.take w.start).reverse.takeWhile (fun x => !x.isGlue)).reverse
+    let pb := popBoundaryLig w.font skipped (startsWithLB rest.head?)
+    some (w.letters, !pb.2, rboOf w.font (rest.drop w.nodes).head?))
+
+def handleRm (lhm rhm : Int) (rest : Cur) : String :=
+  match decProg rest with
+  | none => "bad-request program"
+  | some (p, rest) =>
+    match decItems rest with
+    | none => "bad-request inp"
+    | some (inp, rest) =>
+      match decItems rest with
+      | some (out, n :: rest) =>
+        match (if n < 0 then none else decRawsN n.toNat rest) with
+        | some (raws, []) =>
+          let fw := findWords inp
+          if fw.length ≠ raws.length then "bad-request words" else
+          let table := (fw.map (·.letters)).zip raws
+          let liang := fun (s : List Nat) => ((table.find? (fun e => e.1 == s)).map (·.2)).getD []
+          let eng := engineOf (tableB (C05.bound p) p) p.rb
+          let model := hyphenateM eng lhm rhm liang inp
+          let v := match model with
+            | none => "P"
+            | some m => if m = out then "1" else "0"
+          let runs := (rebuiltWords inp lhm rhm liang).map (fun (s, dlb, rbo) =>
+            let r := eng.run dlb rbo s
+            showInts ([if dlb then 1 else 0, (match rbo with | some c => (c : Int) | none => -1), (r.length : Int)]
+              ++ (r.map encNode).flatten))
+          let shown := match model with
+            | none => "panic-or-hang"
+            | some m => if m = out then "=" else " ".intercalate (m.map showItem)
+          s!"{v} | {";".intercalate runs} | {shown}"
+        | _ => "bad-request raws"
+      | _ => "bad-request out"
+
 def handle (line : String) : String :=
   match words line with
   | "fw" :: ws =>
@@ -157,6 +272,10 @@ def handle (line : String) : String :=
     match C13.lowerWord C13.asciiLc w.toList with
     | none => "N"
     | some lw => dots (C13.specIndices (items pats) (items excs) lw)
+  | "rm" :: ws =>
+    match ints? ws with
+    | some (lhm :: rhm :: rest) => handleRm lhm rhm rest
+    | _ => "bad-request"
   | "chk" :: ws =>
     match ints? ws with
     | some (lhm :: rhm :: rest) =>
